@@ -373,6 +373,9 @@ func init() {
 			}
 			r.ChildGOMAXPROCS = 1 // goroutine hand-offs are direct switches on one P
 			if r.Fork(r.Workers) {
+				for _, scn := range c13Scenarios {
+					r.Reached("reached/scenario/" + scn.Name)
+				}
 				return
 			}
 			si, sn := r.ShardInfo()
@@ -416,6 +419,7 @@ func init() {
 					if r.NSamples() < 3 && c.Deviations() == b {
 						r.Sample(map[string]interface{}{"scenario": scn.Name, "preemptions_at": c.Describe(nil)})
 					}
+					r.Outcome("reached/scenario/" + scn.Name)
 					if len(fs) == 0 {
 						r.Outcome("safe")
 					}
